@@ -1533,8 +1533,13 @@ func (n *node) RouteNodeDown(name gen.Atom, reason error) {
 	// Send exit messages for link targets that were cleaned up
 	for target, linkConsumers := range linkTargetsWithConsumers {
 		var message any
+		// the sender of an exit signal is the linked process (see RouteTerminatePID): with the
+		// core as the sender a trapping process spawned by the node (its parent is the core)
+		// takes it for the exit of its parent and terminates instead of receiving the message
+		from := n.corePID
 		switch t := target.(type) {
 		case gen.PID:
+			from = t
 			message = gen.MessageExitPID{
 				PID:    t,
 				Reason: gen.ErrNoConnection,
@@ -1570,7 +1575,7 @@ func (n *node) RouteNodeDown(name gen.Atom, reason error) {
 
 		// Send exit messages to all consumers
 		for _, pid := range linkConsumers {
-			n.sendExitMessage(n.corePID, pid, message)
+			n.sendExitMessage(from, pid, message)
 		}
 	}
 
